@@ -51,22 +51,26 @@ const (
 	rw0 = 0x20000
 )
 
-func hostLookup(acc types.ServiceAccount, sid types.ServiceID, selfArg bool, t types.TimeSlot, h types.OpaqueHash) (w7 uint64, out []byte, exit PVM.ExitReason) {
+// hostLookup: the refine host call issued by service caller with ω7 = arg against a state holding acc under sid (and an empty
+// account under caller when that is another service).
+func hostLookup(acc types.ServiceAccount, sid, caller types.ServiceID, arg uint64, t types.TimeSlot, h types.OpaqueHash) (w7 uint64, out []byte, exit PVM.ExitReason) {
 	mem := &PVM.Memory{Pages: map[uint32]*PVM.Page{
 		rw0 / 4096:     {Value: make([]byte, 4096), Access: PVM.MemoryReadWrite},
 		rw0/4096 + 1: {Value: bytes.Repeat([]byte{0xEE}, 4096), Access: PVM.MemoryReadWrite},
 	}}
 	copy(mem.Pages[rw0/4096].Value, h[:])
 	var regs PVM.Registers
-	regs[7] = uint64(sid)
-	if selfArg {
-		regs[7] = ^uint64(0)
-	}
+	regs[7] = arg
 	regs[8], regs[9], regs[10], regs[11] = rw0, rw0+4096, 0, 4096
 	gas := PVM.Gas(1000)
 	delta := types.ServiceAccountState{sid: acc}
-	s := sid
-	add := PVM.HostCallArgs{GeneralArgs: PVM.GeneralArgs{ServiceID: &s, ServiceAccountState: &delta, ServiceAccount: &acc}}
+	s := caller
+	own := acc
+	if caller != sid {
+		own = types.ServiceAccount{PreimageLookup: types.PreimagesMapEntry{}, LookupDict: types.LookupMetaMapEntry{}, StorageDict: types.Storage{}}
+		delta[caller] = own
+	}
+	add := PVM.HostCallArgs{GeneralArgs: PVM.GeneralArgs{ServiceID: &s, ServiceAccountState: &delta, ServiceAccount: &own}}
 	add.RefineArgs.TimeSlot = t
 	o := PVM.RefineOmegas[PVM.HistoricalLookupOp](PVM.OmegaInput{Operation: PVM.HistoricalLookupOp,
 		VM: &PVM.VMState{Registers: &regs, Memory: mem, Gas: &gas}, Addition: add, HostCalls: PVM.RefineOmegas})
@@ -150,11 +154,29 @@ func TestVerifC31(t *testing.T) {
 				}
 				// the same through the refine host call (own service via 2^64-1, or by id)
 				if tt%3 == 0 && judged {
-					sid := types.ServiceID(7 + ri%3)
+					// the service: small ids and the ends of the 32-bit range; addressed as "self" (2^64-1), by its id from itself, by
+					// its id from another service, or by a 64-bit value whose low half is its id (names no service: NONE)
+					sid := []types.ServiceID{7, 8, 9, 0, 255, 65536, 0x7FFFFFFF, 0x80000000, 0xFFFFFFFE, 0xFFFFFFFF}[(ri+int(tt/3))%10]
+					caller, arg, hostWant := sid, uint64(sid), want
+					switch (ri/10 + int(tt/3)) % 4 {
+					case 0:
+						arg = ^uint64(0)
+					case 1:
+					case 2:
+						caller = sid ^ 0x55
+					default:
+						arg = uint64(sid) | uint64(1+r.IntN(0xFFFFFFFE))<<32
+						hostWant = false
+						if r.Bool() {
+							caller = sid ^ 0x55
+						}
+						h.Inc("host_call_lookups_naming_a_service_outside_the_32_bit_range")
+					}
+					d["service"], d["caller"], d["w7_in"] = sid, caller, fmt.Sprintf("%#x", arg)
 					var w7 uint64
 					var out []byte
 					var ex PVM.ExitReason
-					if pn, msg, st := vh.Guard(func() { w7, out, ex = hostLookup(acc, sid, tt%2 == 0, types.TimeSlot(tt), query) }); pn {
+					if pn, msg, st := vh.Guard(func() { w7, out, ex = hostLookup(acc, sid, caller, arg, types.TimeSlot(tt), query) }); pn {
 						d["panic"], d["stack"] = msg, st
 						h.Viol("lookup", ri, "", "historical_lookup host call panicked", d)
 						continue
@@ -163,9 +185,9 @@ func TestVerifC31(t *testing.T) {
 					switch {
 					case ex != PVM.ExitContinue:
 						h.Viol("lookup", ri, "", "historical_lookup host call did not continue on readable/writable ranges", d)
-					case want && (w7 != uint64(len(blob)) || !bytes.Equal(out[:len(blob)], blob) || out[len(blob)] != 0xEE):
+					case hostWant && (w7 != uint64(len(blob)) || !bytes.Equal(out[:len(blob)], blob) || out[len(blob)] != 0xEE):
 						h.Viol("lookup", ri, "", "historical_lookup host call: available preimage not delivered", d)
-					case !want && (w7 != PVM.NONE || out[0] != 0xEE):
+					case !hostWant && (w7 != PVM.NONE || out[0] != 0xEE):
 						h.Viol("lookup", ri, "", "historical_lookup host call: answered although nothing is available", d)
 					}
 					h.Inc("host_call_lookups")
